@@ -170,7 +170,7 @@ pub fn gen_config(seeds: &[u16], force_valid: bool) -> GenCfg {
     let mut max_joins = None;
     match mode(&mut s, 40, pi) {
         0 => {
-            let m = 1 + s.pick(200);
+            let m = if s.chance(60) { 1 + s.pick(8) } else { 1 + s.pick(200) };
             t += &format!("max_joins = {}\n", m);
             max_joins = Some(m);
         }
@@ -753,11 +753,28 @@ pub fn check_govern(c: &CfgCase, st: &mut Stats) -> Result<(), Viol> {
     // max_joins governs: the (max_joins+1)-th channel is refused with 405
     if let Some(m) = g.max_joins {
         if m <= 12 {
-            for i in 0..m {
+            // some channels one by one, then one comma list that crosses the quota: exactly the
+            // remaining number is admitted, the others are refused with 405
+            let single = s.pick(m + 1);
+            for i in 0..single {
                 w.send_line(conn, &format!("JOIN #j{}", i));
             }
             w.settle();
             w.drain(conn);
+            let extra = 1 + s.pick(3);
+            let names: Vec<String> = (0..(m - single + extra)).map(|i| format!("#l{}", i)).collect();
+            w.send_line(conn, &format!("JOIN {}", names.join(",")));
+            w.settle();
+            let ls = w.drain(conn);
+            let admitted = ls.iter().filter(|l| l.contains(" JOIN #l")).count();
+            let refused = ls.iter().filter(|l| l.contains(" 405 ")).count();
+            if admitted != m - single || refused != extra {
+                return Err(fail(
+                    "C20.max_joins",
+                    "max-joins",
+                    format!("max_joins = {}: after {} single JOINs a list of {} channels admitted {} and refused {} (expected {} and {})", m, single, names.len(), admitted, refused, m - single, extra),
+                ));
+            }
             w.send_line(conn, "JOIN #onemore");
             w.settle();
             let ls = w.drain(conn);
